@@ -146,7 +146,7 @@ func (w *AttestWorld) client(q int, pre string) string {
 		upd(2, 2)
 	case "frozen":
 		upd(2, 2)
-		upd(1, 2) // conflicting timestamp for the stored height 1
+		upd(2, 3) // conflicting timestamp for the stored latest height (set-up only: conflicts below the latest height are cases, not set-up)
 	}
 	w.clients[key] = id
 	return id
